@@ -30,3 +30,9 @@ Theorem C05_mul_add_distr_structural : forall a b c,
                      num_mul a bc = Ok r /\ num_add ab ac = Ok r.
 Proof. exact mul_add_distr_structural. Qed.
 Print Assumptions C05_mul_add_distr_structural.
+(* __eq__ (structural equality of two objects) decides equality of VALUES on normalised exact numbers *)
+Theorem C05_eq_decides_value_exact : forall a b x y,
+  num_wf a = true -> num_wf b = true -> valQi a = Some x -> valQi b = Some y ->
+  (num_eqb a b = true <-> qi_eq x y).
+Proof. exact eq_decides_value_exact. Qed.
+Print Assumptions C05_eq_decides_value_exact.
